@@ -43,5 +43,88 @@ def isWsScalar (b : UInt8) : Bool := b == 9 || b == 10 || b == 13 || b == 32
 /-- `get_nonspace_bits` of a 64-byte block -/
 def nonspaceBits (v : List UInt8) : Nat := maskOf (fun b => !isWsScalar b) v
 
+/-! ### the 16-byte digit-run parser (`sonic-number/src/arch`): SSE lanes against the scalar loop -/
+
+def pairUp {α β : Type} (f : α → α → β) : List α → List β
+  | a :: b :: r => f a b :: pairUp f r
+  | _ => []
+
+/-- saturation / wrap-around / re-reading of a lane, as the instruction set manual states them -/
+def satS16 (x : Int) : Int := if x > 32767 then 32767 else if x < -32768 then -32768 else x
+def satU16 (x : Int) : Int := if x > 65535 then 65535 else if x < 0 then 0 else x
+def wrapS32 (x : Int) : Int := let y := x % 4294967296; if y ≥ 2147483648 then y - 4294967296 else y
+def asS16 (x : Int) : Int := if x ≥ 32768 then x - 65536 else x
+def asU16 (x : Int) : Int := if x < 0 then x + 65536 else x
+/-- `x as u64` of an `i32` (sign extension), and arithmetic in `u64` -/
+def toU64 (x : Int) : Nat := (x % 18446744073709551616).toNat
+
+/-- `_mm_maddubs_epi16(a, b)`: unsigned bytes of `a` times signed bytes of `b`, adjacent pairs added with signed saturation -/
+def maddubs (a : List UInt8) (b : List Int) : List Int :=
+  pairUp (fun x y => satS16 (x + y)) (List.zipWith (fun x y => (x.toNat : Int) * y) a b)
+/-- `_mm_madd_epi16(a, b)`: signed 16-bit lanes multiplied, adjacent pairs added in 32 bits -/
+def madd16 (a b : List Int) : List Int :=
+  pairUp (fun x y => wrapS32 (x + y)) (List.zipWith (fun x y => x * y) a b)
+/-- `_mm_slli_si128(v, k)`: the bytes move `k` lanes up, zeros come in below -/
+def slli (v : List UInt8) (k : Nat) : List UInt8 := (List.replicate k 0 ++ v).take 16
+
+def delta1 : List Int := [10, 1, 10, 1, 10, 1, 10, 1, 10, 1, 10, 1, 10, 1, 10, 1]
+def delta2 : List Int := [100, 1, 100, 1, 100, 1, 100, 1]
+def delta4 : List Int := [10000, 1, 10000, 1, 0, 0, 0, 0]
+def packadd1 (v : List UInt8) : List Int := maddubs v delta1
+def packadd2 (w : List Int) : List Int := madd16 w delta2
+/-- `_mm_packus_epi32(v, v)` then `madd` -/
+def packadd4 (x : List Int) : List Int := madd16 ((x ++ x).map fun l => asS16 (satU16 l)) delta4
+
+/-- `trailing_zeros` of a non-zero 32-bit word -/
+def tzF : Nat → Nat → Nat
+  | 0, _ => 0
+  | fuel+1, m => if m % 2 = 1 then 0 else 1 + tzF fuel (m / 2)
+
+/-- lanes after `_mm_sub_epi8(data, '0')` -/
+def subZero (c : List UInt8) : List UInt8 := c.map (· - 48)
+/-- `movemask(cmpgt(0, d) | cmpgt(d, 9))` (signed comparisons) -/
+def endMask (d : List UInt8) : Nat := maskOf (fun b => decide (toI8 0 > toI8 b) || decide (toI8 b > toI8 9)) d
+def countOf (d : List UInt8) (need : Nat) : Nat :=
+  let m := endMask d
+  if m ≠ 0 then (let t := tzF 32 m; if t < need then t else need) else need
+
+def lane8 (v : List UInt8) (i : Nat) : Int := ((v.getD i 0).toNat : Int)
+def lane (v : List Int) (i : Nat) : Int := v.getD i 0
+
+/-- the arms of the `match count` of the SSE version, on the shifted lanes -/
+def sum3_4 (v : List UInt8) : Nat :=
+  let w := packadd1 v
+  toU64 (wrapS32 (wrapS32 (asU16 (lane w 6) * 100) + asU16 (lane w 7)))
+def sum5_8 (v : List UInt8) : Nat :=
+  let x := packadd2 (packadd1 v)
+  (toU64 (lane x 2) * 10000 + toU64 (lane x 3)) % 18446744073709551616
+def sum9_16 (v : List UInt8) : Nat :=
+  let y := packadd4 (packadd2 (packadd1 v))
+  (toU64 (lane y 0) * 100000000 + toU64 (lane y 1)) % 18446744073709551616
+
+/-- the `match count`; `none` is `unreachable!()` -/
+def sumOf (d : List UInt8) (count : Nat) : Option Nat :=
+  if count = 0 ∨ count > 16 then none
+  else if count = 1 then some (toU64 (lane8 d 0))
+  else if count = 2 then some (toU64 (wrapS32 (wrapS32 (lane8 d 0 * 10) + lane8 d 1)))
+  else if count ≤ 4 then some (sum3_4 (slli d (16 - count)))
+  else if count ≤ 8 then some (sum5_8 (slli d (16 - count)))
+  else some (sum9_16 (if count = 16 then d else slli d (16 - count)))
+
+/-- `simd_str2int` of the x86_64 backend on the 16 bytes it loads -/
+def str2intSimd (c : List UInt8) (need : Nat) : Option (Nat × Nat) :=
+  let d := subZero c
+  let count := countOf d need
+  (sumOf d count).map fun s => (s, count)
+
+/-- `simd_str2int` of the fallback backend: the scalar loop (sum in `u64`) -/
+def str2intLoop : List UInt8 → Nat → Nat → Nat → Nat × Nat
+  | [], _, sum, i => (sum, i)
+  | _, 0, sum, i => (sum, i)
+  | b :: rest, need+1, sum, i =>
+    if 48 ≤ b ∧ b ≤ 57 then str2intLoop rest need (((b - 48).toNat + sum * 10) % 18446744073709551616) (i + 1)
+    else (sum, i)
+def str2intScalar (c : List UInt8) (need : Nat) : Nat × Nat := str2intLoop c need 0 0
+
 end Simd
 end Sonic
